@@ -152,6 +152,21 @@ _SAFE_METHODS = {
 }
 
 
+import itertools as _it  # noqa: E402
+import functools as _ft  # noqa: E402
+
+_STDLIB_PURE = {   # side-effect-free stdlib helpers the repository imports by name
+    ('itertools', 'product'): lambda *a, **k: list(_it.product(*a, **k)),
+    ('itertools', 'chain'): lambda *a: list(_it.chain(*a)),
+    ('itertools', 'repeat'): lambda x, n: [x] * n,
+    ('itertools', 'islice'): lambda it, *a: list(_it.islice(it, *a)),
+    ('itertools', 'zip_longest'): lambda *a, **k: list(_it.zip_longest(*a, **k)),
+    ('functools', 'reduce'): _ft.reduce,
+    ('operator', 'lt'): operator.lt, ('operator', 'gt'): operator.gt, ('operator', 'le'): operator.le,
+    ('operator', 'ge'): operator.ge, ('operator', 'xor'): operator.xor,
+}
+
+
 def ev(node, env):
     """Evaluate expression `node` in `env` (dict name -> value / Namespace / Sym)."""
     t = type(node)
@@ -171,6 +186,8 @@ def ev(node, env):
             return getattr(_ReStub, node.attr)
         if isinstance(base, Sym):
             return Sym(f'{base.name}.{node.attr}')
+        if node.attr in getattr(type(base), '_model', ()):   # model object supplied by a rule
+            return getattr(base, node.attr)
         for typ, names in _SAFE_METHODS.items():
             if isinstance(base, typ) and node.attr in names:
                 return getattr(base, node.attr)
@@ -412,6 +429,8 @@ def module_consts(forest, modname, _stack=()):
             for a in st.names:
                 if st.module == 'collections' and a.name == 'namedtuple':
                     env[a.asname or a.name] = collections.namedtuple
+                elif (st.module, a.name) in _STDLIB_PURE:
+                    env[a.asname or a.name] = _STDLIB_PURE[(st.module, a.name)]
         elif isinstance(st, (ast.FunctionDef, ast.AsyncFunctionDef, ast.ClassDef)):
             env[st.name] = FuncRef(modname, st.name, st)
         elif isinstance(st, ast.Assign):
